@@ -89,11 +89,15 @@ func c12Run(c *fw.Ctx, kind, text string, optSets []int) {
 				c12Tok[kind] = t
 			}
 			setOptions(t, o)
-			got = tokenizeOn(t, text)
-			if got.failed() {
+			var again tokResult
+			got, again = tokenizeOnTwice(t, text)
+			if got.failed() || again.failed() {
 				delete(c12Tok, kind)
 			}
-			c.Eval(1)
+			c.Eval(2)
+			if !got.failed() && tokStr(got.toks) != tokStr(again.toks) {
+				c.Violation("position-differs-on-second-pass:"+kind, "%s tokenizer, options %s, input %q: the same scanner rewound with Reset() and tokenized again gives %s (failure: %s), the first pass gave %s", kind, optStr(o), text, tokStr(again.toks), again.failStr(), tokStr(got.toks))
+			}
 		}
 		want, idx := refTransform(kind, o, base.toks)
 		if got.failed() || !sameTV(got.toks, want) {
